@@ -63,9 +63,10 @@ def check_mstep_wrapper(P, R):
             if kw.arg in want:
                 ok = isinstance(kw.value, ast.Attribute) and src(kw.value) == f"{mach_p}.{want[kw.arg]}"
                 R.check(ok, "ARGROLE.mstep", key, f"{kw.arg}={src(kw.value)}", "machine's setting of the same name", f"parameter {kw.arg} receives `{src(kw.value)}` instead of {mach_p}.{want[kw.arg]}", c.lineno)
-            if kw.arg == "statistics":
-                # the reduced statistics
-                pass
+            if kw.arg == "reynolds_adaptation":
+                v_ = kw.value
+                ok = isinstance(v_, ast.Compare) and len(v_.ops) == 1 and isinstance(v_.ops[0], ast.IsNot) and src(v_.left) == f"{mach_p}.map_relevance_factor" and isinstance(v_.comparators[0], ast.Constant) and v_.comparators[0].value is None
+                R.check(ok, "ARGROLE.mstep", key, f"reynolds_adaptation={src(v_)}", "data-dependent adaptation exactly when a relevance factor is configured", f"reynolds_adaptation receives `{src(v_)}`: the relevance-factor adaptation is switched on exactly when no relevance factor is configured (or never)", c.lineno)
         kws = {k.arg for k in c.keywords}
         for need in ("update_means", "update_variances", "update_weights", "mean_var_update_threshold"):
             R.check(need in kws, "ARGROLE.mstep", key, f"{need} passed", "", f"the M-step is called without {need}: the machine's setting is ignored (callee default used)", c.lineno)
